@@ -194,6 +194,232 @@ Proof.
   split; [exact (ex_tree_runs_ptr true)|]. split; [exact (ex_tree_runs_map false true)|exact (ex_tree_runs_map true false)].
 Qed.
 
-(* What is NOT proved here: that the checker model (Ty/Checker.v) establishes ok_full / site_ok for the
-   trees it returns (static typing of callees is C03's domain), and the transfer to compiled code (C01's
+(* That the checker model (Ty/Checker.v) establishes ok_full / site_ok for the trees it returns is the
+   last part of this file (Ty/ModeBridge.v).  Not proved here: the transfer to compiled code (C01's
    compile_correct, per tree).  The implementation is additionally compared pairwise by harness c15. *)
+
+(* ================================================================== the checker establishes the annotation conditions *)
+(* This part supersedes the first half of the note above.
+   Ty/ModeBridge.v: the trees the checker model returns satisfy ok_full, so the `ok` hypotheses of
+   C15_modes_agree are discharged by theorems about `check` (environment typing as in C03_sound_partial).
+     raw e              every integer literal of the source is unannotated (or int) and in the int range
+                        (what the parser produces);
+     bridge_scope c e   raw + the DECIDABLE carve-out at every function call: where an argument that is a
+                        literal or a + - * / node meets a parameter whose Kind is a number kind other than
+                        int, the parameter type is that number type itself (no declared `type Celsius
+                        float64`), the name is an unambiguous entry of function type proper, and the Go
+                        guarantees on signatures hold (sc_sig);
+     method_sites e'    the retyped arguments of METHOD calls in the returned tree: for them site_ok is a
+                        statement about every callable of that name in the function environment and does
+                        not follow from the static type of the receiver (C15_method_sites_not_from_typing);
+                        they stay a hypothesis, void under the decidable no_method_sites e'. *)
+From Coq Require Import Permutation.
+Require Import X.Ty.Types X.Ty.TypesTable X.Ty.Checker X.Ty.Sound X.Ty.ModeBridge.
+
+Theorem C15_checker_establishes_ok :
+  forall c perm ftab nn fe env T sn e t e',
+  (forall l, Permutation (perm l) l) -> wf_tenv (cc_te c) = true ->
+  env_ok c perm ftab nn T sn env -> fenv_ok (cc_te c) ftab nn fe ->
+  check c e = (t, e', None) -> bridge_scope c e = true ->
+  Forall (site_ok fe env) (method_sites e') ->
+  ok_full fe env e' /\ same_shape e e'.
+Proof. exact checker_establishes_ok_full. Qed.
+Print Assumptions C15_checker_establishes_ok.
+
+Theorem C15_checker_establishes_ok_dec :
+  forall c perm ftab nn fe env T sn e t e',
+  (forall l, Permutation (perm l) l) -> wf_tenv (cc_te c) = true ->
+  env_ok c perm ftab nn T sn env -> fenv_ok (cc_te c) ftab nn fe ->
+  check c e = (t, e', None) -> bridge_scope c e = true -> no_method_sites e' = true ->
+  ok_full fe env e' /\ same_shape e e'.
+Proof. exact checker_establishes_ok_full_dec. Qed.
+Print Assumptions C15_checker_establishes_ok_dec.
+
+(* compiled without a declared environment (config.Types == nil): function arguments are not visited *)
+Theorem C15_checker_establishes_ok_untyped :
+  forall c fe env e t e' st,
+  cc_types c = None -> check c e = (t, e', st) -> raw e = true ->
+  Forall (site_ok fe env) (method_sites e') ->
+  ok_full fe env e' /\ same_shape e e'.
+Proof. exact checker_establishes_ok_full_untyped. Qed.
+Print Assumptions C15_checker_establishes_ok_untyped.
+
+(* whatever the verdict: same source, well annotated, every function call site established *)
+Theorem C15_checker_tree_ok :
+  forall c fe env e,
+  callee_ok c fe env -> bridge_scope c e = true ->
+  same_shape e (checked c e) /\ wf_full None (checked c e) = true /\
+  Forall (fun st => st_method st = true \/ site_ok fe env st) (sites_full (checked c e)).
+Proof. exact checker_tree_ok. Qed.
+Print Assumptions C15_checker_tree_ok.
+
+(* one source checked with the declared environment type (c1) and without one (c0): both accepted
+   trees, when both evaluate, give the same value, call log and allocation count.  The `ok` hypotheses
+   of C15_modes_agree are gone; what remains: C03's environment typing, fast_sound, the carve-outs
+   bridge_scope (source) and wf (finding C15-arg-retype-mixed, both trees), method sites. *)
+Theorem C15_typed_vs_untyped :
+  forall c1 c0 perm ftab nn fe env T sn e t1 e1 t0 e0,
+  (forall l, Permutation (perm l) l) -> wf_tenv (cc_te c1) = true ->
+  env_ok c1 perm ftab nn T sn env -> fenv_ok (cc_te c1) ftab nn fe -> fast_sound fe ->
+  cc_types c0 = None ->
+  bridge_scope c1 e = true ->
+  check c1 e = (t1, e1, None) -> check c0 e = (t0, e0, None) ->
+  wf e1 = true -> wf e0 = true ->
+  Forall (site_ok fe env) (method_sites e1) -> Forall (site_ok fe env) (method_sites e0) ->
+  forall cfg ctx s v1 s1 v0 s0,
+  eval fe cfg env ctx e1 s = Done v1 s1 -> eval fe cfg env ctx e0 s = Done v0 s0 -> v1 = v0 /\ s1 = s0.
+Proof. exact typed_vs_untyped. Qed.
+Print Assumptions C15_typed_vs_untyped.
+
+Theorem C15_typed_vs_untyped_dec :
+  forall c1 c0 perm ftab nn fe env T sn e t1 e1 t0 e0,
+  (forall l, Permutation (perm l) l) -> wf_tenv (cc_te c1) = true ->
+  env_ok c1 perm ftab nn T sn env -> fenv_ok (cc_te c1) ftab nn fe -> fast_sound fe ->
+  cc_types c0 = None ->
+  bridge_scope c1 e = true ->
+  check c1 e = (t1, e1, None) -> check c0 e = (t0, e0, None) ->
+  wf e1 = true -> wf e0 = true -> no_method_sites e1 = true -> no_method_sites e0 = true ->
+  forall cfg ctx s v1 s1 v0 s0,
+  eval fe cfg env ctx e1 s = Done v1 s1 -> eval fe cfg env ctx e0 s = Done v0 s0 -> v1 = v0 /\ s1 = s0.
+Proof. exact typed_vs_untyped_dec. Qed.
+Print Assumptions C15_typed_vs_untyped_dec.
+
+(* every carve-out decidable on the configuration and the SOURCE: bridge_scope_src = bridge_scope + no
+   argument of a method call is an integer literal or a + - * / node (then no method argument is retyped) *)
+Theorem C15_checker_establishes_ok_src :
+  forall c perm ftab nn fe env T sn e t e',
+  (forall l, Permutation (perm l) l) -> wf_tenv (cc_te c) = true ->
+  env_ok c perm ftab nn T sn env -> fenv_ok (cc_te c) ftab nn fe ->
+  check c e = (t, e', None) -> bridge_scope_src c e = true ->
+  ok_full fe env e' /\ same_shape e e'.
+Proof. exact checker_establishes_ok_full_src. Qed.
+Print Assumptions C15_checker_establishes_ok_src.
+
+Theorem C15_typed_vs_untyped_src :
+  forall c1 c0 perm ftab nn fe env T sn e t1 e1 t0 e0,
+  (forall l, Permutation (perm l) l) -> wf_tenv (cc_te c1) = true ->
+  env_ok c1 perm ftab nn T sn env -> fenv_ok (cc_te c1) ftab nn fe -> fast_sound fe ->
+  cc_types c0 = None ->
+  bridge_scope_src c1 e = true ->
+  check c1 e = (t1, e1, None) -> check c0 e = (t0, e0, None) ->
+  wf e1 = true -> wf e0 = true ->
+  forall cfg ctx s v1 s1 v0 s0,
+  eval fe cfg env ctx e1 s = Done v1 s1 -> eval fe cfg env ctx e0 s = Done v0 s0 -> v1 = v0 /\ s1 = s0.
+Proof. exact typed_vs_untyped_src. Qed.
+Print Assumptions C15_typed_vs_untyped_src.
+
+(* the general form: any two checker configurations whose tables describe the environment value *)
+Theorem C15_variants_agree :
+  forall c1 c2 fe env e,
+  callee_ok c1 fe env -> callee_ok c2 fe env -> fast_sound fe ->
+  bridge_scope c1 e = true -> bridge_scope c2 e = true ->
+  wf (checked c1 e) = true -> wf (checked c2 e) = true ->
+  Forall (site_ok fe env) (method_sites (checked c1 e)) -> Forall (site_ok fe env) (method_sites (checked c2 e)) ->
+  forall cfg ctx s v1 s1 v2 s2,
+  eval fe cfg env ctx (checked c1 e) s = Done v1 s1 -> eval fe cfg env ctx (checked c2 e) s = Done v2 s2 ->
+  v1 = v2 /\ s1 = s2.
+Proof. exact variants_agree. Qed.
+Print Assumptions C15_variants_agree.
+
+(* callee_ok is what C03's hypotheses give; it is void without a declared environment *)
+Theorem C15_callee_ok_env :
+  forall c perm ftab nn fe env T sn,
+  (forall l, Permutation (perm l) l) -> wf_tenv (cc_te c) = true ->
+  env_ok c perm ftab nn T sn env -> fenv_ok (cc_te c) ftab nn fe -> callee_ok c fe env.
+Proof. exact callee_ok_env. Qed.
+
+Theorem C15_callee_ok_untyped : forall c fe env, cc_types c = None -> callee_ok c fe env.
+Proof. exact callee_ok_untyped. Qed.
+
+(* the carve-out is weaker than C03's: a raw source inside in_scope is inside bridge_scope *)
+Theorem C15_in_scope_bridge_scope :
+  forall c nn e, raw e = true -> in_scope c nn e = true -> bridge_scope c e = true.
+Proof. exact in_scope_bridge_scope. Qed.
+Print Assumptions C15_in_scope_bridge_scope.
+
+(* the statement without carve-out and method-site hypothesis is false of the model: `Warm(20)` with
+   Warm func(Celsius) bool is accepted, the literal is annotated float64, reflect.Call wants Celsius *)
+Definition C15_checker_establishes_ok_full_statement : Prop :=
+  forall c perm ftab nn fe env T sn e t e',
+  (forall l, Permutation (perm l) l) -> wf_tenv (cc_te c) = true ->
+  env_ok c perm ftab nn T sn env -> fenv_ok (cc_te c) ftab nn fe ->
+  check c e = (t, e', None) -> raw e = true -> ok_full fe env e'.
+
+Theorem C15_checker_establishes_ok_full_statement_refuted : ~ C15_checker_establishes_ok_full_statement.
+Proof. exact ok_full_statement_refuted. Qed.
+Print Assumptions C15_checker_establishes_ok_full_statement_refuted.
+
+(* `A.M(1)` with A.M(float64) and B.M(int): accepted, inside bridge_scope and inside C03's in_scope,
+   yet site_ok of the method site fails (the receiver B resolves M to func(int)) *)
+Theorem C15_method_sites_not_from_typing :
+  exists e, bridge_scope BWit.c1 e = true /\ in_scope BWit.c1 false e = true /\ snd (check BWit.c1 e) = None /\
+  ~ ok_full BWit.fe BWit.env (checked BWit.c1 e).
+Proof. exact method_sites_not_from_typing. Qed.
+Print Assumptions C15_method_sites_not_from_typing.
+
+(* fast_sound is not implied by fenv_ok (which constrains listed functions only); it is when every
+   function with a signature is listed and variadic types are Go's *)
+Theorem C15_fast_sound_not_from_fenv_ok :
+  exists te ftab nn fe, fenv_ok te ftab nn fe /\ ~ fast_sound fe.
+Proof. exact fast_sound_not_from_fenv_ok. Qed.
+
+Theorem C15_fast_sound_of_listed :
+  forall te ftab nn fe, fenv_ok te ftab nn fe -> sigs_listed ftab fe -> fast_plain ftab -> fast_sound fe.
+Proof. exact fast_sound_of_listed. Qed.
+Print Assumptions C15_fast_sound_of_listed.
+
+(* ---- non-vacuity on the universe BWit of Ty/ModeBridge.v
+   (Env{I int = 3; Y; Half func(float64) float64; Inc func(int) int; Fast func(...interface{}) interface{};
+        Warm func(Celsius) bool; A; B} with method Scale(float64) float64):
+     ex_brief  Half(1 + 2) > 1.0 and I == 3      accepted by both; typed run true; the untyped run passes int(3)
+                                                 to func(float64): reflect.Call panics (one side not Done)
+     ex_or     I == 3 or Half(1 + 2) > 1.0       both runs true, the retyped site present
+     ex_calls  Inc(1 + 2) > 1 and Fast(I, "a") == 2   both runs true with the same call log; the trees differ
+   all hypotheses of C15_typed_vs_untyped_dec hold (hyps_hold, by vm_compute) and the theorem applies *)
+Example C15_typed_vs_untyped_nonvacuous :
+  BWit.hyps_hold BWit.ex_brief /\ BWit.hyps_hold BWit.ex_or /\ BWit.hyps_hold BWit.ex_calls /\ BWit.hyps_hold BWit.ex_scale /\
+  fast_sound BWit.fe /\ cc_types BWit.c0 = None /\
+  env_ok BWit.c1 perm_id BWit.ftab false (TStruct "Env") "Env" BWit.env /\ fenv_ok BWit.te BWit.ftab false BWit.fe /\
+  sites_full (checked BWit.c1 BWit.ex_brief) = [BWit.half_site] /\ site_ok BWit.fe BWit.env BWit.half_site /\
+  sites_full (checked BWit.c1 BWit.ex_scale) = [BWit.scale_site] /\ site_ok BWit.fe BWit.env BWit.scale_site /\
+  (BWit.run1 BWit.ex_brief = BWit.res_true [("Half"%string, [BWit.f64 3])] /\
+   BWit.run0 BWit.ex_brief = Stop EReflect noloc rs0) /\
+  (BWit.run1 BWit.ex_or = BWit.res_true [] /\ BWit.run0 BWit.ex_or = BWit.res_true []) /\
+  (BWit.run1 BWit.ex_calls = BWit.res_true [("Inc"%string, [vint 3]); ("Fast"%string, [vint 3; VStr "a"])] /\
+   BWit.run0 BWit.ex_calls = BWit.res_true [("Inc"%string, [vint 3]); ("Fast"%string, [vint 3; VStr "a"])] /\
+   checked BWit.c1 BWit.ex_calls <> checked BWit.c0 BWit.ex_calls).
+Proof.
+  split; [exact BWit.ex_brief_hyps|]. split; [exact BWit.ex_or_hyps|]. split; [exact BWit.ex_calls_hyps|].
+  split; [exact BWit.ex_scale_hyps|]. split; [exact BWit.fe_fast_sound|]. split; [reflexivity|].
+  split; [exact (BWit.env_is_ok false)|]. split; [exact (BWit.fe_ok false)|].
+  split; [exact (proj1 BWit.ex_brief_sites)|]. split; [exact BWit.half_site_ok|].
+  split; [exact BWit.ex_scale_sites|]. split; [exact BWit.scale_site_ok|].
+  split; [exact BWit.ex_brief_runs|]. split; [exact BWit.ex_or_runs|exact BWit.ex_calls_runs].
+Qed.
+
+(* the corollary instantiated: every expression meeting the decidable hypotheses agrees on this universe *)
+Example C15_typed_vs_untyped_applies :
+  forall e, BWit.hyps_hold e ->
+  forall cfg ctx s v1 s1 v0 s0,
+  eval BWit.fe cfg BWit.env ctx (checked BWit.c1 e) s = Done v1 s1 ->
+  eval BWit.fe cfg BWit.env ctx (checked BWit.c0 e) s = Done v0 s0 -> v1 = v0 /\ s1 = s0.
+Proof. exact BWit.hyps_agree. Qed.
+
+(* the source-level form: A.M(Y) > 0.0 and Inc(1 + 2) > 1 (a method call whose argument is not retyped and a
+   function call) and the expressions above meet bridge_scope_src; both runs succeed with the same call log *)
+Example C15_typed_vs_untyped_src_nonvacuous :
+  (BSrc.src_hyps BSrc.ex_src /\ BSrc.src_hyps BWit.ex_brief /\ BSrc.src_hyps BWit.ex_or /\ BSrc.src_hyps BWit.ex_calls /\
+   BSrc.src_hyps BWit.ex_scale) /\
+  bridge_scope_src BWit.c1 BWit.ex_meth = false /\
+  (exists tr, BWit.run1 BSrc.ex_src = BWit.res_true tr /\ BWit.run0 BSrc.ex_src = BWit.res_true tr /\
+              map fst tr = ["A.M"%string; "Inc"%string]) /\
+  checked BWit.c1 BSrc.ex_src <> checked BWit.c0 BSrc.ex_src /\
+  (forall e, BSrc.src_hyps e ->
+   forall cfg ctx s v1 s1 v0 s0,
+   eval BWit.fe cfg BWit.env ctx (checked BWit.c1 e) s = Done v1 s1 ->
+   eval BWit.fe cfg BWit.env ctx (checked BWit.c0 e) s = Done v0 s0 -> v1 = v0 /\ s1 = s0).
+Proof.
+  split; [exact BSrc.ex_src_hyps|]. split; [exact BSrc.ex_meth_outside|].
+  destruct BSrc.ex_src_runs as (R1 & R0 & D).
+  split; [eexists; split; [exact R1|split; [exact R0|reflexivity]]|]. split; [exact D|exact BSrc.src_agree].
+Qed.
